@@ -88,6 +88,23 @@ func (e *Explorer) exec(prefix []int, prePreempt int) (*Sched, []work) {
 		for i, p := range s.Points {
 			choices[i] = p.Chosen
 		}
+		// a failure is believed only if the recorded schedule reproduces it
+		setup2, body2, check2 := e.NewRun()
+		s2 := Run(Config{Prefix: choices, MaxSteps: e.MaxSteps, Fine: e.Fine}, setup2, body2)
+		f2 := s2.Fail
+		if f2 == nil && check2 != nil {
+			f2 = check2(s2)
+		}
+		if e.AfterRun != nil {
+			e.AfterRun(s2)
+		}
+		if f2 == nil || f2.Kind != f.Kind {
+			got := "no failure"
+			if f2 != nil {
+				got = f2.Kind + ": " + f2.Msg
+			}
+			f = &Failure{Kind: "replay-divergence", Msg: "failure did not reproduce on replay of its own schedule: first " + f.Kind + ": " + f.Msg + "; then " + got}
+		}
 		e.OnFailure(choices, s, f)
 	} else if f != nil {
 		e.OnFailure(prefix, s, f)
